@@ -77,6 +77,7 @@ impl Monitor {
         BeanFactory::get_or_default(MONITOR_BEAN)
     }
 
+    #[inline(never)]
     fn with_notify_queue<R>(&self, f: impl FnOnce(&mut HashSet<NotifyNode>) -> R) -> R {
         IN_NOTIFY_QUEUE.with(|flag| flag.set(true));
         let r = f(&mut self
